@@ -409,6 +409,82 @@ def sql_effects(prog, f, depth=0, _seen=None):
 
 # ---------------------------------------------------------------------------------------
 
+def sql_buffer_rule(chk, prog, R):
+    """every SQL statement is built into a buffer that can hold it: either sized from snprintf(NULL, 0, ...) of the same
+    format, or a fixed array at least as long as the longest expansion (string arguments bounded by the literals at the call sites)"""
+    for f in prog.all_funcs():
+        if f.unit.name != 'io.c':
+            continue
+        pidx = {p['id']: i for i, p in enumerate(f.params)}
+        # longest literal passed for each char* parameter over all call sites in the program
+        maxlit = {}
+        for g in prog.all_funcs():
+            for cn, node in g.calls:
+                if cn == f.name:
+                    for i, a in enumerate(call_args(node)):
+                        sa = strip(a)
+                        if sa.get('kind') == 'StringLiteral':
+                            ln = len(sa['value'].strip('"'))
+                            if ln >= maxlit.get(i, (0, ''))[0]:
+                                maxlit[i] = (ln, sa['value'].strip('"'))
+        for n in walk(f.body):
+            if n.get('kind') != 'CallExpr' or callee_name(n) != 'snprintf':
+                continue
+            a = call_args(n)
+            if len(a) < 3:
+                continue
+            buf, size, fmt = strip(a[0]), a[1], strip(a[2])
+            if fmt.get('kind') != 'StringLiteral' or fe.int_value(buf) == 0:
+                continue
+            text = fmt['value'].strip('"')
+            if not re.match(r'\s*(CREATE|INSERT|DROP|DELETE|SELECT|UPDATE)', text, re.I):
+                continue
+            bt = (buf.get('type') or {}).get('qualType', '') if buf.get('kind') == 'DeclRefExpr' else ''
+            bdecl = f.unit.by_id.get(buf['referencedDecl']['id']) if buf.get('kind') == 'DeclRefExpr' else None
+            bqt = ((bdecl or {}).get('type') or {}).get('qualType', '')
+            m = re.search(r'\[(\d+)\]', bqt)
+            desc = '%s %s: snprintf(%s, ..., "%s")' % (f.unit.where(n), f.name, f.unit.text(a[0])[:20], text[:40])
+            if not m:
+                # heap buffer: must be allocated from the measured length of the same format
+                measured = any(x.get('kind') == 'CallExpr' and callee_name(x) == 'snprintf' and fe.int_value(call_args(x)[0]) == 0 and
+                               strip(call_args(x)[2]).get('value') == fmt['value'] for x in walk(f.body))
+                if measured:
+                    chk.instance(R, desc + ': buffer sized from the measured length of the same format')
+                else:
+                    chk.instance(R, desc + ': buffer size not derived from the statement length', 'undecided')
+                continue
+            cap = int(m.group(1))
+            need = len(re.sub(r'%[-+ #0]*\d*(?:\.\d+)?l?[a-zA-Z]', '', text))
+            args = a[3:]
+            convs = re.findall(r'%[-+ #0]*\d*(?:\.\d+)?l?([a-zA-Z])', text)
+            worst = None
+            unbounded = False
+            for cv, arg in zip(convs, args):
+                if cv == 's':
+                    pid = fe.ref_id(arg)
+                    if pid in pidx and pidx[pid] in maxlit:
+                        need += maxlit[pidx[pid]][0]
+                        worst = maxlit[pidx[pid]][1]
+                    elif strip(arg).get('kind') == 'StringLiteral':
+                        need += len(strip(arg)['value'].strip('"'))
+                    else:
+                        unbounded = True
+                elif cv in 'fFeEgG':
+                    need += 330       # %f of a double may need > 300 characters
+                else:
+                    need += 20
+            if unbounded:
+                chk.instance(R, desc + ': fixed buffer of %d bytes with an unbounded string argument' % cap, 'undecided')
+            elif need + 1 > cap:
+                chk.instance(R, desc + ': needs %d bytes, buffer has %d' % (need + 1, cap), 'refuted')
+                chk.violation(Finding('IO.sql-buffer', rel(f.file), f.name, 'buffer:' + text[:30], f.unit.where(n),
+                                      '%s builds the statement "%s" into a fixed buffer of %d bytes, but it needs %d bytes for the table name '
+                                      '"%s" used by a caller: the statement is truncated (snprintf) and silently acts on another table name'
+                                      % (f.name, text, cap, need + 1, worst)))
+            else:
+                chk.instance(R, desc + ': fixed buffer of %d bytes holds the longest expansion (%d)' % (cap, need + 1))
+
+
 def writes_through_param(prog, f, _active=None, cache={}):
     """indices of pointer parameters through which f (transitively) stores"""
     if f in cache:
@@ -515,9 +591,12 @@ def run(chk, prog):
     Rd = chk.rule('IO.pure-writer', 'Write* and its callees never store through the model parameter')
     Re = chk.rule('IO.precision', 'values are bound through a placeholder or formatted with >= 15 fractional (%f) / >= 17 '
                   'significant (%e,%g) digits')
+    Rs = chk.rule('IO.sql-buffer', 'every SQL statement is formatted into a buffer that holds its longest expansion (sized from the '
+                  'measured length, or a fixed array checked against the longest table name any caller passes)')
     unit = prog.units.get('io.c')
     if unit is None:
         raise fe.AnalysisBroken('io.c not loaded')
+    sql_buffer_rule(chk, prog, Rs)
     codecs = {}
     for f in prog.all_funcs():
         if f.unit.name == 'io.c':
